@@ -217,4 +217,21 @@ PROPS = {
         "level_note": "Trusted: Lean kernel + standard axioms; go2lean; harness/driver; Go regexp semantics of \\s and \\w (hand-translated scanner, pinned pattern); strconv.ParseInt (hand-modelled).",
         "assumptions": ["a JSON null in place of an object is not claimed either way", "signed or zero-padded kind numbers inside an a value are not claimed either way"],
     },
+    "C01": {
+        "lean_modules": ["MocProps.C01"], "theorem_files": ["MocProps/C01.lean"],
+        "gen_groups": ["Serialize"],
+        "n_quick": 8000, "n_thorough": 40000, "thorough_seeds": 2, "timeout": 7000,
+        "rule": "events whose content and tag values are drawn per character class (ASCII, the 7 mandated escapes, other C0 controls, < > &, U+2028/9, DEL/C1, BMP, astral, combining; long "
+                "strings), all kinds / created_at signs / tag shapes, freshly signed with btcec through an independent NIP-01 serializer; for each: Serialize() bytes, their SHA-256 (also "
+                "recomputed by a Lean SHA-256), Verify(); then 3 single-field or single-bit alterations (content, created_at, kind, tags, pubkey, one bit of id / sig / pubkey) and malformed "
+                "hex variants; thorough adds ALL 1,112,064 Unicode scalar values as one-character content and tag value; non-trivial = every case; distinct = distinct output line",
+        "level_text": "Partial by nature (cryptography): proved for EVERY event — the serialized form that is hashed is the NIP-01 canonical form, character by character, incl. < > & U+2028 U+2029 "
+                      "and all planes (escRune_eq_canonChar, serialize_eq_canonical; escape table regenerated from the code), and Verify reports authentic exactly when the id decodes to the hash of "
+                      "that form and pubkey/signature decode, parse and pass the BIP-340 check (verify_true_iff; id_mismatch_not_authentic, bad_signature_not_authentic). That every correctly "
+                      "signed event verifies and that altering a signed field changes the hash / breaks the signature are cryptographic facts: validated on every generated signature and "
+                      "alteration (btcec as oracle, Lean SHA-256 as cross-check), not proved.",
+        "level_note": "Trusted: Lean kernel + standard axioms; go2lean; harness/driver; crypto/sha256 (cross-checked by the Lean implementation on every case), btcec Schnorr, encoding/hex; "
+                      "SHA-256 collision resistance and BIP-340 unforgeability.",
+        "assumptions": ["events carry a non-nil tag list (Event.Valid); invalid UTF-8 cannot pass the gate", "ids/pubkeys/sigs in lower-case hex for the monitors (upper case is compared with the model only)"],
+    },
 }
